@@ -140,6 +140,28 @@ def main(argv):
             if int(f.get("deadlocks", "0")) > 0:
                 chk.violate("model-deadlock", "model admits an execution in which a waiter is never woken: %s" % l[:300],
                             {"level": "model", "program": l.split()[0]})
+    # lifetime half: owners dropped while set_value still walks the callback list
+    life = chk.build_cpp("c08_lifetime", [os.path.join(VERIF, "harness/conc/c08_lifetime.cpp"),
+                                          os.path.join(VERIF, "harness/shim/dsched.cpp")], ldflags=["-ldl"])
+    if life and not chk.replay:
+        llines = ["l%d %d %d %d" % (i, rng.below(1 << 31), [0, 3, 0, 1][i % 4], i % 3) for i in range(150 if not thorough else 1500)]
+        lout = chk.run_cases(life, llines, timeout=600)
+        for l in llines:
+            o = lout.get(l.split()[0], "")
+            rep = {"lifetime_case": l, "driver": "harness/conc/c08_lifetime.cpp"}
+            if o.startswith("DSCHED-STUCK") or o.startswith("CRASH") or " | " not in o:
+                chk.violate("lifetime-crash", "dropping the Promise/Futures during set_value's callback walk crashed or "
+                            "hung: " + o[:300], rep)
+                continue
+            mon = dict(x.split("=") for x in o.split(" | ")[2].split())
+            if mon.get("alive") != "1":
+                chk.violate("lifetime-value-destroyed", "a callback ran on a value that had already been destroyed (owners "
+                            "released during the callback walk): " + o[:200], rep)
+            if mon.get("once") != "1":
+                chk.violate("lifetime-once", "a callback did not run exactly once when owners were released during the "
+                            "callback walk: " + o[:200], rep)
+        chk.notes["lifetime_runs"] = len(llines)
+        chk.cov["evaluations"] = chk.cov.get("evaluations", 0) + len(llines)
     MON = ["once", "value", "notbefore", "get", "ready", "waitafter", "waitsound"]
     WHAT = {"once": "a callback did not run exactly once", "value": "a callback/get observed a wrong value",
             "notbefore": "a callback ran before set_value began", "get": "get() returned a wrong value",
@@ -173,7 +195,7 @@ def main(argv):
             if parts[1] not in outs and not trunc:
                 chk.broke("correspondence", "FUModel does not admit outcome of %s" % impl_prog(th),
                           "impl outcome: %s\nmodel outcomes: %s" % (parts[1], sorted(outs)[:20]))
-    chk.cov["evaluations"] = len(lines)
+    chk.cov["evaluations"] = chk.cov.get("evaluations", 0) + len(lines)
     chk.cov["distinct_nontrivial"] = len(distinct)
     chk.cov["traces_validated_against_impl"] = validated
     chk.cov["states"] = states
